@@ -925,8 +925,12 @@ func (rn *runner) runOps(nOps int, big bool) {
 	}
 	rn.byteBlock(4 + r.Intn(6))
 	for k := 0; k < nOps && !rn.dead; k++ {
-		x := r.Intn(122)
+		x := r.Intn(134)
 		switch {
+		case x >= 128:
+			rn.opXSearch("xshow")
+		case x >= 122:
+			rn.opXSearch("xsel")
 		case x >= 120:
 			rn.windowProbe()
 		case x >= 118:
